@@ -185,6 +185,7 @@ pub fn cases(args: &[String]) {
     std::panic::set_hook(Box::new(|_| {}));
     let mut out = Vec::new();
     for i in 0..n {
+        crate::util::tick_idx(i as u64, serde_json::Value::Null);
         let malformed = i % 25 == 24;
         let (ty, m, mut ops) = gen_case(&mut rng, malformed);
         let (outcome, nodes, obs) = run_ty(&ty, m, &ops);
@@ -209,6 +210,7 @@ pub fn search(args: &[String]) {
     let mut found = Vec::new();
     let mut tried = 0u64;
     for _ in 0..n {
+        crate::util::tick_idx(0, serde_json::Value::Null);
         let (ty, m, ops) = gen_case(&mut rng, false);
         tried += 1;
         if let Some(why) = oracle_disagrees(&ty, m, &ops) {
